@@ -123,7 +123,7 @@ def gen_procprog(rng: random.Random) -> dict:
     procs = []
     for _ in range(n_procs):
         steps = gen_steps(0, 6, [0])
-        procs.append({"t": rng.choice(TIMES_NS), "hook": rng.random() < 0.5, "hook_when": rng.choice(["create", "create", "body"]), "wrap_gen": rng.random() < 0.15,
+        procs.append({"t": rng.choice(TIMES_NS), "hook": rng.random() < 0.5, "hook_when": rng.choice(["create", "create", "body"]), "wrap_gen": rng.random() < 0.15, "ret_shared": rng.random() < 0.5,
                       "hook_emits": [], "steps": steps, "ret": rng.choice(["none", "one", "list"]),
                       "ret_emits": [], "daemon": rng.random() < 0.1})
     # emits that refer to any future (now that all exist)
@@ -310,6 +310,8 @@ class _Proc(Entity):
         yield from self._steps(p["steps"], log, slots)
         created = w.make_events(self.now.nanoseconds, p.get("ret_emits", []))
         log.append(("finish", self.now.nanoseconds, None))
+        if p["ret"] == "shared_empty" or (p["ret"] == "list" and not created and p.get("ret_shared")):
+            return w.NO_EVENTS   # one list object returned by every process that has nothing to return
         if p["ret"] == "none":
             return None
         if p["ret"] == "one":
@@ -363,6 +365,7 @@ class EngineWorld:
         self.hooks: list[tuple] = []
         self.notes: list[tuple] = []
         self.plain_log: list[tuple] = []
+        self.NO_EVENTS: list = []
         self.resolver = _Resolver(self)
         self.recorder = _Recorder(self)
         self.plain = _Plain(self)
